@@ -17,7 +17,8 @@ RULE = (
     "dimension-then-axis order + category extents (+ fact axes); for EVERY extra-axis position (j1..jm) the block "
     "result[j1..jm] equals the same aggregate on the cube of the one-axis dimensions dense[:, j..] (indexes rebuilt "
     "by the independent constructor, not by sliced()) with the same interacting shape; half of the whole cubes are "
-    "evaluated with the worker pool on (real threads, or DetPool with a write-dense schedule), the reference cubes serially. Non-trivial = at least two "
+    "evaluated with the worker pool on (real threads, or DetPool with a write-dense schedule), the reference cubes serially. Index cubes are tabulated a second time after one whole entry of a multi-axis "
+    "dimension was withdrawn in place (same index objects): the blocks must follow the edited data. Non-trivial = at least two "
     "extra axes with different extents and at least two blocks that differ. Evaluations = cases; blocks compared are "
     "reported separately. Distinct by case content."
 )
@@ -99,6 +100,53 @@ def run(case, kind, dense, commons, shape, pool=None):
     return Q.normalise(res, case["rma"], "%s.%s" % (kind, case["agg"]))
 
 
+def edited_index_pass(case, dense, commons, shape, tails, rec):
+    """Tabulate, withdraw one whole entry of a multi-axis dimension in place, tabulate again with the SAME index
+    objects: every block must equal the cube of the (edited) one-axis slices."""
+    import warnings
+
+    import numpy
+
+    from catii import ccube
+
+    j = next((n for n, t in enumerate(tails) if len(t)), None)
+    if j is None:
+        return
+    N = case["N"]
+    farg = None if case["fact"] is None else Q.fact_arrays(case["fact"], N)[0]
+    warg = Q.weight_arrays(case["weights"], N)[0]
+    idxs = [Q.build_index(a, c) for a, c in zip(dense, commons)]
+    keys = sorted(idxs[j].keys())
+    if not keys:
+        return
+    what = "ccube.%s" % case["agg"]
+    with warnings.catch_warnings():
+        warnings.simplefilter("ignore")
+        with libcall(what + " before / after an entry is withdrawn in place"):
+            Q.call_agg(ccube(idxs, shape), case["agg"], farg, warg, case["ignore"], case["rma"], prob=case["prob"])
+            key = keys[len(keys) // 2]
+            rows = idxs[j][key]
+            idxs[j].difference_update({key: numpy.array(rows, copy=True)})
+            res = Q.call_agg(ccube(idxs, shape), case["agg"], farg, warg, case["ignore"], case["rma"], prob=case["prob"])
+        wv, wm = Q.normalise(res, case["rma"], what)
+        dense2 = [a.copy() for a in dense]
+        dense2[j][(numpy.asarray(rows),) + tuple(key[1:])] = commons[j]
+        for pos in itertools.product(*[itertools.product(*[range(e) for e in t]) for t in tails]):
+            flat = tuple(x for p in pos for x in p)
+            sub = [a[(slice(None),) + p] for a, p in zip(dense2, pos)]
+            with libcall(what + " (one-axis slices %s of the edited data)" % (flat,)):
+                bv, bm = run(case, "ccube", sub, commons, shape)
+            gv = wv[flat]
+            gm = None if wm is None else wm[flat]
+            same_m = gm is None or numpy.array_equal(gm, bm)
+            sel = numpy.ones(gv.shape, dtype=bool) if gm is None else ~gm
+            if gv.shape != bv.shape or not same_m or not numpy.allclose(gv[sel], bv[sel], rtol=1e-12, atol=0.0, equal_nan=True):
+                raise Violation("%s: after entry %r of dimension %d was withdrawn in place (difference_update), block %s "
+                                "differs from the cube of the edited one-axis slices" % (what, key, j, flat),
+                                sig=what + " block stale after an in-place edit of a dimension")
+    rec.note("re-tabulated after an in-place edit")
+
+
 def check(case, rec):
     import numpy
 
@@ -147,6 +195,8 @@ def check(case, rec):
         nblocks += 1
         blocks.add((gv.tobytes(), None if gm is None else gm.tobytes()))
     rec.count("blocks_compared", nblocks)
+    if kind == "ccube" and not case.get("alias"):
+        edited_index_pass(case, dense, commons, tuple(used), tails, rec)
     rec.note("kind=" + kind, "agg=" + case["agg"], "extra_axes=%d" % len(scaffold))
     pl = case.get("pool")
     rec.note("whole cube serial" if not pl else "whole cube pooled (%s)" % ("DetPool" if pl.get("schedule") else "real threads"))
